@@ -125,6 +125,7 @@ class Gateway:
         self.connects_ok_delivered = 0
         self.open_channel: int | None = None  # channel whose ConnectResponse has been delivered
         self.data_endpoint_route_back = False
+        self.after_connect_response: Callable[[], None] | None = None
         self.data_endpoint: tuple[str, int] | None = None  # announced in the last ConnectResponse (UDP)
         loop.on_send = self._on_send
 
@@ -175,6 +176,11 @@ class Gateway:
         else:
             tr.deliver(data)
         self.note("rx_done", type=info["type"])
+        if (isinstance(body, ConnectResponse) and body.status_code is ErrorCode.E_NO_ERROR
+                and self.after_connect_response is not None):
+            # same datagram burst: whatever the hook delivers follows the ConnectResponse back to back,
+            # before the connecting task of the client has run again
+            self.after_connect_response()
 
     def send_tunnelling_request(self, seq: int, raw_cemi: bytes, delay: float | None = None,
                                 channel: int | None = None, **meta: Any) -> None:
